@@ -476,6 +476,8 @@ func configs(tier string) []config {
 	out = append(out, config{name: "1s:1/1@300ms+ExtractRates", rates: sets[0].rates, phase: 300 * time.Millisecond, viaExtractRates: true})
 	out = append(out, config{name: "1s:1/5@0s+ExtractRates", rates: sets[3].rates, viaExtractRates: true})
 	out = append(out, config{name: "1s:1/1@0s+Capacity(2)", rates: sets[0].rates, capacity: 2})
+	// a fine-grained rate: one token every 250 microseconds (delays far below a millisecond)
+	out = append(out, config{name: "1s:4000/2@0s", rates: []rateSpec{{S, 4000, 2}}})
 	out = append(out, config{name: "2s:1/2@300ms+Capacity(2)", rates: sets[4].rates, phase: 300 * time.Millisecond, capacity: 2})
 	return out
 }
